@@ -225,8 +225,12 @@ def campaign_headers(ck: Check, rounds: int) -> None:
     rng = ck.rng.fork("headers")
     ms = minors()
     names = list(HEADERS)
+    from . import c19
+
+    # kinds whose annotations stay strings under the future import first: a failure there has no other explanation
+    kinds = sorted(e2e.MODEL_KINDS, key=lambda k: k in c19.RUNTIME_ANNOTATION_KINDS)
     for r in range(rounds):
-        for kind in e2e.MODEL_KINDS:
+        for kind in kinds:
             # every header kind with every model kind in each round; the target cycles so that every (header, kind, target)
             # triple is met within len(ms) rounds, the lowest target first
             for j, hn in enumerate(names):
@@ -243,7 +247,7 @@ def search_headers(ck: Check) -> None:
     rng = ck.rng.fork("search-headers")
     for minor in sorted(minors()):
         for hn, text in HEADERS.items():
-            for kind in e2e.MODEL_KINDS:
+            for kind in sorted(e2e.MODEL_KINDS, key=lambda k: k.startswith("pydantic")):
                 for via in ("text", "path") if text is not None else ("text",):
                     case(ck, camp, {"model": kind, "minor": minor, "input_kind": "jsonschema", "doc": document(rng), "opts": {"use_union_operator": True},
                                     "header_text": text, "header_via": via})
